@@ -136,16 +136,23 @@ namespace sim
         std::fflush(stdout);
     }
 
-    inline void dump_stats()
+    // prints the counters accumulated since the last dump and resets them
+    inline void dump_stats(bool final = true)
     {
         Stats& s = stats();
         std::printf("S");
-        for (size_t i = 0; i < s.names.size(); ++i) std::printf(" %s=%llu", s.names[i].c_str(), (unsigned long long)s.values[i]);
+        for (size_t i = 0; i < s.names.size(); ++i)
+        {
+            if (s.values[i]) std::printf(" %s=%llu", s.names[i].c_str(), (unsigned long long)s.values[i]);
+            s.values[i] = 0;
+        }
         std::printf("\nA");
         std::vector<uint64_t> a(s.abstract.begin(), s.abstract.end());
         std::sort(a.begin(), a.end());
         for (uint64_t h : a) std::printf(" %llx", (unsigned long long)h);
-        std::printf("\nE\n");
+        s.abstract.clear();
+        std::printf("\n");
+        if (final) std::printf("E\n");
         std::fflush(stdout);
     }
 
@@ -226,6 +233,7 @@ namespace sim
         if (mode == "run")
         {
             uint64_t hid = strhash(harness_name) ^ (strhash(workload.c_str()) * 31);
+            uint64_t done = 0;
             for (uint64_t i = start; i < total; i += stride)
             {
                 uint64_t rs = mix(seed, hid, i);
@@ -236,6 +244,7 @@ namespace sim
                 std::fflush(stdout);
                 Outcome o = execute(p, false);
                 report(p, o);
+                if ((++done & 255) == 0) dump_stats(false);     // counters survive a later crash of this worker
                 if (enumerate && o.ok)
                 {
                     for (size_t s = 0; s < o.points.size() && s < p.steps.size(); ++s)
